@@ -30,11 +30,23 @@ fn probe_sentences() -> Vec<String> {
     vec!["a".into(), "ab".into(), " a b".into(), "zzz".into(), "あa".into(), "😀".into(), "".into(), "abあ  b".into(), "\u{0}a".into()]
 }
 
-/// Tokenizes the probes (without ignore_space) under catch_unwind.
-pub fn run_probes(dict: Dictionary) -> Vec<Value> {
+/// Tokenizes the probes (without ignore_space) under catch_unwind.  Each probe also carries
+/// the primary category of every character, and the event the categories that have no
+/// unknown entry (both read from the real dictionary), so that the specification can
+/// recognise the known finding F12 by its signature.
+pub fn run_probes(dict: Dictionary) -> (Vec<Value>, Vec<u32>) {
+    let ncat = dict.verif_num_categories();
+    let mut have = vec![false; ncat];
+    for e in dict.verif_unk_entries() {
+        if (e.0 as usize) < ncat {
+            have[e.0 as usize] = true;
+        }
+    }
+    let nounk: Vec<u32> = (0..ncat as u32).filter(|&c| !have[c as usize]).collect();
+    let cats_of: Vec<Vec<u32>> = probe_sentences().iter().map(|s| s.chars().map(|c| dict.verif_char_info(c).1).collect()).collect();
     let tok = Tokenizer::new(dict);
     let mut out = vec![];
-    for s in probe_sentences() {
+    for (k, s) in probe_sentences().into_iter().enumerate() {
         let r = catch_unwind(AssertUnwindSafe(|| {
             let mut w = tok.new_worker();
             w.reset_sentence(&s);
@@ -43,18 +55,21 @@ pub fn run_probes(dict: Dictionary) -> Vec<Value> {
         }));
         let cps: Vec<u32> = s.chars().map(|c| c as u32).collect();
         match r {
-            Ok(toks) => out.push(json!({"s": cps, "panic": false, "toks": toks})),
-            Err(_) => out.push(json!({"s": cps, "panic": true, "toks": []})),
+            Ok(toks) => out.push(json!({"s": cps, "cats": cats_of[k], "panic": false, "toks": toks})),
+            Err(_) => out.push(json!({"s": cps, "cats": cats_of[k], "panic": true, "toks": []})),
         }
     }
-    out
+    (out, nounk)
 }
 
 fn outcome_event(class: &str, what: Value, r: std::thread::Result<vibrato::errors::Result<Dictionary>>) -> Value {
     match r {
-        Ok(Ok(d)) => json!({"ev": "build", "class": class, "outcome": "ok", "probes": run_probes(d), "what": what}),
-        Ok(Err(e)) => json!({"ev": "build", "class": class, "outcome": "err", "probes": [], "what": what, "msg": e.to_string().chars().take(120).collect::<String>()}),
-        Err(_) => json!({"ev": "build", "class": class, "outcome": "panic", "probes": [], "what": what}),
+        Ok(Ok(d)) => {
+            let (probes, nounk) = run_probes(d);
+            json!({"ev": "build", "class": class, "outcome": "ok", "probes": probes, "nounk": nounk, "what": what})
+        }
+        Ok(Err(e)) => json!({"ev": "build", "class": class, "outcome": "err", "probes": [], "nounk": [], "what": what, "msg": e.to_string().chars().take(120).collect::<String>()}),
+        Err(_) => json!({"ev": "build", "class": class, "outcome": "panic", "probes": [], "nounk": [], "what": what}),
     }
 }
 
@@ -202,8 +217,8 @@ pub fn record_lex(a: &HashMap<String, String>) -> i32 {
         let user_path = i % 3 == 2;
         // ids: an extreme value on at most one side so that the matrix stays small
         let (maxl, maxr): (u32, u32) = match rng.below(4) {
-            0 => (65535, 2),
-            1 => (2, 65535),
+            0 => (65534, 2),
+            1 => (2, 65534),
             _ => (3, 3),
         };
         let nrows = rng.below(maxrows + 1);
@@ -281,7 +296,7 @@ pub fn record_lex(a: &HashMap<String, String>) -> i32 {
                 writeln!(f, "{}", json!({"ev": "lex", "user": user_path, "text": tcps, "ok": true, "words": words, "probes": probes})).unwrap();
             }
             Ok(Err(e)) => writeln!(f, "{}", json!({"ev": "lex", "user": user_path, "text": tcps, "ok": false, "words": [], "probes": [], "msg": e.to_string().chars().take(100).collect::<String>()})).unwrap(),
-            Err(_) => writeln!(f, "{}", json!({"ev": "build", "class": "VALID", "outcome": "panic", "probes": [], "what": {"lex": tcps}})).unwrap(),
+            Err(_) => writeln!(f, "{}", json!({"ev": "build", "class": "VALID", "outcome": "panic", "probes": [], "nounk": [], "what": {"lex": tcps}})).unwrap(),
         }
     }
     0
